@@ -53,6 +53,9 @@ class RunTimeout(BaseException):
 
 
 def _alarm(signum, frame):
+    from . import seam
+    if signum == signal.SIGVTALRM and seam.GUARD[0]:
+        raise seam.Runaway()
     raise RunTimeout()
 
 
@@ -359,6 +362,11 @@ def main(mod, argv=None):
     print("%s tier=%s seed=%d runs=%d distinct_nontrivial=%d wall=%.1fs "
           "violations=%d known=%d" % (prop, tier, seed, nruns, len(keys), wall,
                                       len(unlisted), sum(v[0] for v in known_hit.values())))
+    nskip = sum(skipped.values())
+    if nruns and nskip > 0.5 * nruns:
+        top = sorted(skipped.items(), key=lambda kv: -kv[1])[:2]
+        print("NOTE property=%s %d of %d runs were not judged (%s): the evidence file says why; this is not a verdict"
+              % (prop, nskip, nruns, "; ".join("%s x%d" % (k[:60], v) for k, v in top)))
     for ln in lines:
         print(ln)
     sys.stdout.flush()
